@@ -121,6 +121,7 @@ def run_gen(scr, module, cfg, num, depth, seed, timeout=600):
     return behs
 
 
+RE_TUP_ML = re.compile(r'<<\s*"(VIOL|DRIFT|DONE|PANIC|NOTE)"\s*,(.*?)>>', re.S)
 RE_TUP = re.compile(r'^<<"(VIOL|DRIFT|DONE|PANIC|NOTE)",\s*(.*)>>\s*$')
 
 
@@ -147,10 +148,8 @@ def run_trace(scr, module, cfg_text, trace_path, timeout=900, dfs=False, expect_
         shutil.copyfile(trace_path, dst)
     out, rc, wall = tlc(scr, module, cfgname, timeout=timeout, workers=1, dfs=dfs)
     res = dict(viol=[], drift=[], done=None, panic=[], note=[], wall=wall, raw=out)
-    for line in out.splitlines():
-        m = RE_TUP.match(line)
-        if not m:
-            continue
+    # TLC pretty-prints long tuples over several lines: match across lines
+    for m in RE_TUP_ML.finditer(out):
         f = parse_tuple_fields(m.group(2))
         k = m.group(1)
         if k == "VIOL":
